@@ -100,6 +100,27 @@ def main():
         r = run_one(args.prop, p, args.budget, args.tests, args.workers)
         results.append(r)
         print(json.dumps(r), flush=True)
+    # keep the outcome next to the patches: selftest/logs/<prop>-<own|seeded>.jsonl (entries replaced by name)
+    logdir = os.path.join(VERIF, "selftest", "logs")
+    os.makedirs(logdir, exist_ok=True)
+    logpath = os.path.join(logdir, f"{args.prop}-{'seeded' if args.seeded else 'own'}.jsonl")
+    old = {}
+    if os.path.exists(logpath):
+        for line in open(logpath):
+            try:
+                d = json.loads(line)
+                old[d["name"]] = d
+            except ValueError:
+                pass
+    head = subprocess.run(["git", "-C", REPO, "rev-parse", "--short", "HEAD"], stdout=subprocess.PIPE, text=True).stdout.strip()
+    vhead = subprocess.run(["git", "-C", VERIF, "rev-parse", "--short", "HEAD"], stdout=subprocess.PIPE, text=True).stdout.strip()
+    for r in results:
+        r = {k: v for k, v in r.items() if k not in ("tail",)}
+        r["repo_head"], r["verif_head"], r["budget"] = head, vhead, args.budget
+        old[r["name"]] = r
+    with open(logpath, "w") as f:
+        for name in sorted(old):
+            f.write(json.dumps(old[name]) + "\n")
     bad = [r for r in results if r.get("status") not in ("caught", "ok-silent")]
     print(f"SUMMARY {args.prop}: {len(results) - len(bad)}/{len(results)} as expected; problems: {[r['name'] + ':' + str(r.get('status')) for r in bad]}")
     return 1 if bad else 0
